@@ -77,7 +77,7 @@ def run(ck):
     ck.trusted += ["harness/c01.py + extractor of the two secular masks", "hand model QV/Model/C01.lean validated on generated inputs only",
                    "numpy.linalg.eigh / spline quadrature produce the operators K, Lambda used by the API stream (their accuracy is irrelevant to the identities)"]
     ok = extract(ck)
-    ck.prove(PROPS, extra_modules=["QV.Drive.C01"])
+    ck.prove(PROPS, extra_modules=["QV.Drive.C01"], also=["QV.Props.C01Basis"])
     lines, impl, tol = [], [], []
 
     def cvals(a):
